@@ -156,7 +156,10 @@ HttpOK    == \A x \in DomHttp : ImplHttp(x) \in AllowedHttp(x)
 (*  sqlattr  absent | none | empty | obj | str (a code) | int (40001)      *)
 (*  argshape none | bare ("40001") | bracket ("[40001] msg") | embedded    *)
 (*           ("x 40001 y") | second (a string without a code, then         *)
-(*           "[40001] msg") | nonstr (40001 as an int in args)             *)
+(*           "[40001] msg") | wordbracket ("ERROR [40001] msg": another    *)
+(*           five-character token before the bracketed state - pyodbc's    *)
+(*           classifier reads the bracketed one, the generic one the first *)
+(*           token) | nonstr (40001 as an int in args)                     *)
 (* A code is [s, p]: the five characters and their two-character prefix.   *)
 (***************************************************************************)
 Cd(s, p) == [s |-> s, p |-> p]
@@ -177,7 +180,7 @@ SqlDocumented(cd) ==
       [] OTHER -> All
 SqlAttrs == {"absent", "none", "empty", "obj", "str", "int", "bytes", "bytes_nonascii", "big",
              "float", "list"}
-ArgShapes == {"none", "bare", "bracket", "embedded", "second", "nonstr"}
+ArgShapes == {"none", "bare", "bracket", "embedded", "second", "wordbracket", "nonstr"}
 DomSql == { [attr |-> a, acode |-> ac, shape |-> sh, scode |-> sc] :
               a \in SqlAttrs, ac \in Codes, sh \in ArgShapes, sc \in Codes }
 \* which code the classifier ends up with ("-" none; "?" a truthy non-code attribute)
@@ -187,9 +190,10 @@ AttrCode(x) == IF x.attr = "str" THEN x.acode
                     THEN Cd("?", "?")          \* truthy, but its str() is not a documented code
                ELSE Cd("-", "-")
 SqlFound(x) == IF AttrCode(x).s # "-" THEN AttrCode(x)
-               ELSE IF x.shape \in {"bare", "bracket", "embedded", "second"} THEN x.scode ELSE Cd("-", "-")
+               ELSE IF x.shape \in {"bare", "bracket", "embedded", "second"} THEN x.scode
+               ELSE IF x.shape = "wordbracket" THEN Cd("?", "?") ELSE Cd("-", "-")
 PyodbcFound(x) == IF AttrCode(x).s # "-" THEN AttrCode(x)
-                  ELSE IF x.shape \in {"bracket", "second"} THEN x.scode ELSE Cd("-", "-")
+                  ELSE IF x.shape \in {"bracket", "second", "wordbracket"} THEN x.scode ELSE Cd("-", "-")
 ImplSql(x) == IF SqlFound(x).s = "-" THEN "UNKNOWN" ELSE SqlTable(SqlFound(x))   \* default(plain) = UNKNOWN
 ImplPyodbc(x) == IF PyodbcFound(x).s = "-" THEN "UNKNOWN" ELSE SqlTable(PyodbcFound(x))
 AllowedSql(x) == IF SqlFound(x).s = "-" THEN {"UNKNOWN"}                         \* falls back to default
